@@ -110,6 +110,7 @@ def hazards(ctx: Ctx, funcs, clause: str = "S0"):
     from rules.negzero import negative_length_bounds
     from rules.negdim import raw_negative_dim_uses
     from rules.viewparam import merging_views_of_parameters
+    from rules.vacuous import vacuous_rank_tests
     from rules.alias import aliasing_cache_stores
     from rules.excmatch import ArgcheckRaises, mismatched_handlers
     from rules.boundary import length_equals_position
@@ -179,6 +180,12 @@ def hazards(ctx: Ctx, funcs, clause: str = "S0"):
                        (f"`{u(bcs[0]['node'])}` caches {bcs[0]['why']} by reference: after an in-place edit by the caller the "
                         f"validity test compares the object with itself and a stale result is served") if bcs else "", rel,
                        bcs[0]["node"].lineno if bcs else f.line, sample=[(x["attr"], x["why"]) for x in cs], nontrivial=False)
+        vt = vacuous_rank_tests(f)
+        if vt:
+            col.ob("G32", clause, f"{where}::no-vacuous-rank-test", False,
+                   f"`{u(vt[0]['node'])}` compares `{vt[0]['what']}`, a tensor rank / length, with {vt[0]['const']}: this is never true, "
+                   f"so the case the validation meant to reject here (most likely the *dimension argument* being {vt[0]['const']}) is "
+                   f"silently accepted", rel, vt[0]["node"].lineno, nontrivial=False)
         mv = merging_views_of_parameters(f)
         if mv:
             col.ob("G31", clause, f"{where}::no-merging-view-of-a-caller's-tensor", False,
